@@ -864,7 +864,15 @@ def case_init(c):
     ini = ScriptedInitializer(len(c["stream"]))
     res = _init_call(ini, c)
     if c.get("again"):
-        cleanup_children()
+        # the first call's pool has been dropped (its workers got their StopCommand); nothing is killed here: whatever
+        # the initializer object still holds on to stays alive, as it would in a user's process
+        gc.collect()
+        time.sleep(0.05)
+        for g in GATES:
+            while g.acquire(False):
+                pass
+        for i in range(NEVAL):
+            EVALS[i] = 0
         res["again"] = _init_call(ini, c["again"])
     return res
 
